@@ -173,7 +173,7 @@ def build_garble(repo=None, tags=None, overlay=None, name="garble", pkg="."):
     """Build the garble binary from the current working tree of `repo` (cached by tree hash).
     overlay: dict path->replacement path (go build -overlay)."""
     repo = repo or REPO
-    extra = (tags or "").encode() + b"|" + pkg.encode()
+    extra = (tags or "").encode() + b"|" + pkg.encode() + b"|novcs"
     if overlay:
         for k in sorted(overlay):
             extra += k.encode() + b"="
@@ -186,7 +186,8 @@ def build_garble(repo=None, tags=None, overlay=None, name="garble", pkg="."):
             except OSError: pass
             return out
         os.makedirs(os.path.dirname(out), exist_ok=True)
-        argv = ["go", "build", "-o", out + ".tmp"]
+        # -buildvcs=false: the binary (and with it every action ID of the builds it drives) is a function of the tree content only
+        argv = ["go", "build", "-buildvcs=false", "-o", out + ".tmp"]
         if tags:
             argv += ["-tags", tags]
         if overlay:
